@@ -25,6 +25,7 @@ const (
 	stRunnable = iota
 	stParked
 	stDone
+	stBlockedReal // blocked on a real synchronisation primitive of the library (degraded mode)
 )
 
 // SwitchPoint: at the K-th scheduling point of Task (K = -1: when Task finished) run Next.
@@ -48,14 +49,14 @@ type FailDecision struct {
 }
 
 type Policy struct {
-	SwitchPPM   uint32 `json:"switch_ppm"`   // probability (per million) of a switch at an ordinary point
-	Directed    bool   `json:"directed"`     // race-directed parking at hot sites
-	ParkPPM     uint32 `json:"park_ppm"`     // probability of parking at a hot site (directed)
-	PCT         []int  `json:"pct"`          // global steps at which a preemption is forced
-	Torn        bool   `json:"torn"`         // split read-modify-write of package state
-	MapMode     int    `json:"map_mode"`     // 0 identity, 1 random permutations
-	ParkBudget  int    `json:"park_budget"`  // steps after which a parked task becomes runnable again
-	FailPlan    []FailDecision `json:"fail_plan"`
+	SwitchPPM  uint32         `json:"switch_ppm"`  // probability (per million) of a switch at an ordinary point
+	Directed   bool           `json:"directed"`    // race-directed parking at hot sites
+	ParkPPM    uint32         `json:"park_ppm"`    // probability of parking at a hot site (directed)
+	PCT        []int          `json:"pct"`         // global steps at which a preemption is forced
+	Torn       bool           `json:"torn"`        // split read-modify-write of package state
+	MapMode    int            `json:"map_mode"`    // 0 identity, 1 random permutations
+	ParkBudget int            `json:"park_budget"` // steps after which a parked task becomes runnable again
+	FailPlan   []FailDecision `json:"fail_plan"`
 }
 
 type Stats struct {
@@ -69,6 +70,7 @@ type Stats struct {
 	MapPermuted int `json:"map_permuted"` // non-identity permutation applied to a map with >= 2 keys
 	FailFired   int `json:"fail_fired"`
 	Blocked     int `json:"lock_blocked"`
+	Degraded    int `json:"forced_handoffs_from_blocked_task"` // the baton holder blocked on a channel / WaitGroup / Cond of the library
 }
 
 type failCount struct {
@@ -102,6 +104,13 @@ type Sched struct {
 	failN []failCount
 
 	OpTime [MaxTasks]time.Time
+
+	// degraded mode: repo code made the baton holder block on real synchronisation with another
+	// task (a channel, WaitGroup, Cond... introduced by an edit). The monitor then takes the baton
+	// away from it; from here on tasks are identified by goroutine id and the run is no longer
+	// exactly replayable (it is flagged, and replays are accepted k-of-n).
+	degraded bool
+	stopMon  chan struct{}
 
 	Trace     []SwitchPoint
 	MapTrace  []MapDecision
@@ -257,7 +266,26 @@ func (s *Sched) point(site, hot string, forceHigh bool) {
 		return
 	}
 	me := s.cur
-	if s.CheckForeign && curGoid() != s.goid[me] {
+	if s.degraded {
+		g := curGoid()
+		who := -1
+		for t := 0; t < s.N; t++ {
+			if s.goid[t] == g {
+				who = t
+			}
+		}
+		if who < 0 {
+			s.St.Foreign++
+			return
+		}
+		if who != me {
+			// this task lost the baton while it was blocked; it has been running since it woke up:
+			// wait for the baton before going on
+			s.state[who] = stRunnable
+			s.waitBaton(who)
+			me = who
+		}
+	} else if s.CheckForeign && curGoid() != s.goid[me] {
 		s.St.Foreign++
 		return
 	}
@@ -352,6 +380,11 @@ func (s *Sched) blocked() {
 
 //go:norace
 func (s *Sched) finish(me int) {
+	if s.degraded && s.cur != me {
+		// finished without holding the baton (it was taken away while this task was blocked)
+		s.state[me] = stDone
+		return
+	}
 	s.state[me] = stDone
 	nx := -1
 	if s.Replay {
@@ -483,7 +516,10 @@ func (s *Sched) Run(tasks []func()) {
 		}()
 	}
 	s.start()
+	s.stopMon = make(chan struct{})
+	go s.monitor()
 	s.wg.Wait()
+	close(s.stopMon)
 	YieldHook, HotHook, MapOrderHook, FailHook, NowHook, TornHook, BlockedHook = nil, nil, nil, nil, nil, nil, nil
 }
 
@@ -506,3 +542,111 @@ func (s *Sched) start() {
 //
 //go:norace
 func (s *Sched) FailCount() int { return s.St.FailFired }
+
+var blockedStates = []string{"chan receive", "chan send", "select", "semacquire", "sync.Cond.Wait", "sync.WaitGroup.Wait",
+	"sync.Mutex.Lock", "sync.RWMutex.RLock", "sync.RWMutex.Lock", "sleep", "IO wait"}
+
+// holderBlocked reports whether the goroutine holding the baton is parked in a blocking state.
+//
+//go:norace
+func (s *Sched) holderBlocked(buf []byte) bool {
+	cur := s.cur
+	if cur < 0 || cur >= s.N {
+		return false
+	}
+	n := runtime.Stack(buf, true)
+	text := string(buf[:n])
+	needle := "goroutine " + utoa(s.goid[cur]) + " ["
+	i := indexOf(text, needle)
+	if i < 0 {
+		return false
+	}
+	rest := text[i+len(needle):]
+	for _, st := range blockedStates {
+		if len(rest) >= len(st) && rest[:len(st)] == st {
+			return true
+		}
+	}
+	return false
+}
+
+func utoa(v uint64) string {
+	if v == 0 {
+		return "0"
+	}
+	var b [20]byte
+	i := len(b)
+	for v > 0 {
+		i--
+		b[i] = byte('0' + v%10)
+		v /= 10
+	}
+	return string(b[i:])
+}
+
+func indexOf(s, sub string) int {
+	for i := 0; i+len(sub) <= len(s); i++ {
+		if s[i:i+len(sub)] == sub {
+			return i
+		}
+	}
+	return -1
+}
+
+// monitor runs outside the baton. When the holder makes no progress and is parked on a real
+// synchronisation primitive, the baton is handed to another task (degraded mode).
+//
+//go:norace
+func (s *Sched) monitor() {
+	buf := make([]byte, 1<<20)
+	last := -1
+	still := 0
+	for {
+		select {
+		case <-s.stopMon:
+			return
+		case <-time.After(10 * time.Millisecond):
+		}
+		st := s.step
+		if st != last {
+			last = st
+			still = 0
+			continue
+		}
+		still++
+		if still < 5 || !s.holderBlocked(buf) {
+			continue
+		}
+		// confirmed twice more, 10 ms apart, with no progress in between
+		time.Sleep(10 * time.Millisecond)
+		if s.step != st || !s.holderBlocked(buf) {
+			continue
+		}
+		cur := s.cur
+		if s.state[cur] == stDone {
+			continue
+		}
+		s.degraded = true
+		s.state[cur] = stBlockedReal
+		nx := s.pickOther(cur)
+		if nx < 0 {
+			for t := 0; t < s.N; t++ {
+				if t != cur && s.state[t] == stParked {
+					nx = t
+				}
+			}
+		}
+		if nx < 0 {
+			s.state[cur] = stRunnable
+			continue // everybody is blocked: a deadlock of the tasks themselves; the process watchdog ends the run
+		}
+		s.St.Degraded++
+		s.Trace = append(s.Trace, SwitchPoint{cur, -2, nx})
+		if s.state[nx] == stParked {
+			s.state[nx] = stRunnable
+		}
+		s.cur = nx
+		s.baton = nx
+		still = 0
+	}
+}
